@@ -85,7 +85,8 @@ prop("C05",
                  "mode on native and hybrid objects; result multiset vs oracle, channel must be disconnected afterwards, "
                  "consumer loop with a real solver thread must end, trace invariants (no choice on a decided statement, "
                  "stacks in lock-step, accepted = delivered), termination decided by a logical loop-iteration budget "
-                 ">=50x above the largest correct run."),
+                 ">=50x above the largest correct run (13x for the wide frameworks, whose correct worst case is exactly "
+                 "3*2^n iterations)."),
      level_note=ORACLE_NOTE + " Termination is restated as bounded progress in loop iterations.",
      rule=("cases = generated ADFs (n<=5 quick, <=7 thorough) x 8 heuristics x modes x back-ends; non-trivial = some "
            "search on the ADF backtracked, learned >=1 nogood and ran >=3 loop iterations; distinct by structure hash"),
